@@ -6,15 +6,22 @@ Open Scope nat_scope.
 
 (* INLINE — for every program, every initial data and every sequence of answers (with their
    writes): the pending requests after every answer, completion and the final variables are those of
-   the program with the content of every sub-process spliced in place ... *)
-Theorem C12_inline : forall b e ops, behaviour (flatten b) e ops = behaviour b e ops.
+   the program with the content of every sub-process spliced in place (programs without end events of
+   their own: an end event inside a sub-process ends that sub-process only, see C12_inline_needs_endfree) ... *)
+Theorem C12_inline : forall b e ops, endfree b = true -> behaviour (flatten b) e ops = behaviour b e ops.
 Proof. exact inline_equiv. Qed.
 Print Assumptions C12_inline.
 (* ... in particular wrapping any block, anywhere (inside parallel branches, loops, other
    sub-processes), in any number of levels changes nothing *)
-Theorem C12_wrap_anywhere : forall c n x e ops, behaviour (plug c (wrap n x)) e ops = behaviour (plug c x) e ops.
+Theorem C12_wrap_anywhere : forall c n x e ops, endfree (plug c x) = true ->
+  behaviour (plug c (wrap n x)) e ops = behaviour (plug c x) e ops.
 Proof. exact wrap_anywhere. Qed.
 Print Assumptions C12_wrap_anywhere.
+Theorem C12_inline_needs_endfree :
+  behaviour (BSeq (BSub (BEnd 1)) (BTask 2)) [] [] = ([[2]], false, []) /\
+  behaviour (flatten (BSeq (BSub (BEnd 1)) (BTask 2))) [] [] = ([[]], true, []).
+Proof. exact inline_needs_endfree. Qed.
+Print Assumptions C12_inline_needs_endfree.
 
 (* EXACTLY ONCE, NOT EARLY — in every reachable state of the repaired activation protocol, for any
    number of parent tokens entering (again and again, as in a loop) and any inner forking: every
